@@ -10,5 +10,5 @@ export CARGO_NET_OFFLINE=true
 (cd sim && cargo build --profile sim --offline 2>&1 | tail -2)
 set +e
 for c in "$@"; do
-  VERIF_RUNS=$RUNS ./sim/target/sim/sim check $c quick 2>&1 | grep -E 'VIOLATION|KNOWN|HARNESS|class=|^check' | cut -c1-400
+  VERIF_NO_EVIDENCE=1 VERIF_RUNS=$RUNS ./sim/target/sim/sim check $c quick 2>&1 | grep -E 'VIOLATION|KNOWN|HARNESS|class=|^check' | cut -c1-400
 done
